@@ -1,6 +1,6 @@
 """C07 - status, message and success describe what actually happened (E1 part;
 the control-skeleton part on engine E3 is in c07 thorough/E3 when built)."""
-from .. import alpha, e1prop, explore, oracles
+from .. import alpha, ctrl, e1prop, explore, oracles
 
 ID = "C07"
 LEVEL = "exploration"
@@ -12,7 +12,9 @@ ASSUMPTIONS = [
 RULE = ("every way a run can end during the initial sampling (target / feasibility / callback / maxfev < nb_points / "
         "huge or NaN value making the system singular) at every sampling index and every admissible nb_points, plus "
         "every natural or forced ending of the main loop (radius, target, callback at every 3rd index, maxfev, maxiter, "
-        "feasibility), all-fixed and inconsistent boxes; thorough adds one NaN/inf deviation at every evaluation. "
+        "feasibility), all-fixed and inconsistent boxes; thorough adds one NaN/inf deviation at every evaluation; "
+        "plus engine E3: every control path of the real main loop (including each LinAlgError site) against a scripted "
+        "back end within 2 (thorough 3) deviations of three nominal scripts. "
         "Non-trivial = run ended by an event other than the default radius test or deviated; distinct = distinct "
         "bit-exact observation.")
 
@@ -94,6 +96,7 @@ def roots(tier, seed):
         for c in out:
             if "dev" not in c and c["options"].get("maxfev", 10 ** 9) <= 60 and c["n"] <= 2:
                 c["explore"] = 1
+    out += ctrl.roots(tier)
     return alpha.permute(out, seed)
 
 
@@ -104,7 +107,14 @@ def _stats(rec, table, stats):
         stats["ended_in_sampling"] = stats.get("ended_in_sampling", 0) + 1
 
 
+def _both(rec, table, stats):
+    _stats(rec, table, stats)
+    ctrl.stats(rec, table, stats)
+
+
 def run_case(case):
+    if case.get("stub"):
+        return e1prop.run_case_generic(case, oracles.c07, menu=ctrl.menu, horizon=ctrl.horizon, extra_stats=_both)
     return e1prop.run_case_generic(case, oracles.c07, extra_stats=_stats)
 
 
@@ -114,4 +124,15 @@ def coverage(agg, tier, roots_):
     cov, herr = e1prop.coverage_generic(agg, tier, roots_, RULE, need=need,
                                         dev_bound=1 if tier == "thorough" else 0)
     cov["statuses_seen"] = sorted(int(k[7:]) for k in agg.stats if k.startswith("status_"))
+    for k in ["ctrl_runs", "ctrl_status_0", "ctrl_status_-2", "ctrl_status_5", "ctrl_status_6", "ctrl_resets"] + \
+            [k for k in ctrl.SITE_KEYS]:
+        if not agg.stats.get(k):
+            herr.append(f"non-vacuity counter {k} is zero")
+    ok, fails, inter = ctrl.conformance_suite(tier)
+    cov["control_skeleton"] = {"executions": int(agg.stats.get("ctrl_runs", 0)),
+                               "choice_points": int(agg.stats.get("ctrl_choice_points", 0)),
+                               "deviation_bound": 2 if tier == "quick" else 3,
+                               "scripted_answers_used": {k[5:]: int(agg.stats[k]) for k in ctrl.SITE_KEYS if agg.stats.get(k)},
+                               "real_traces_replayed_through_skeleton": ok, "taped_interactions": inter}
+    herr += [f"conformance replay failed for {t}: {m}" for t, m in fails]
     return cov, herr
